@@ -3,7 +3,6 @@ package reconciling
 import (
 	"errors"
 	"github.com/jotaen/klog/klog"
-	"regexp"
 	"strings"
 )
 
@@ -50,10 +49,16 @@ func (r *Reconciler) ExtendPause(increment klog.Duration) error {
 
 	extendedPause := r.Record.Entries()[pauseEntryI].Duration().Plus(increment)
 	pauseLineIndex := r.lastLinePointer - countLines(r.Record.Entries()[pauseEntryI:])
-	durationPattern := regexp.MustCompile(`(-\w+)`)
-	value := durationPattern.FindString(r.lines[pauseLineIndex].Text)
 	if extendedPause.InMinutes() != 0 {
-		r.lines[pauseLineIndex].Text = strings.Replace(r.lines[pauseLineIndex].Text, value, extendedPause.ToString(), 1)
+		// The duration value is the first token of the (indented) entry line.
+		text := r.lines[pauseLineIndex].Text
+		entryText := strings.TrimLeft(text, " \t")
+		indentation := text[:len(text)-len(entryText)]
+		value := entryText
+		if i := strings.IndexAny(entryText, " \t"); i >= 0 {
+			value = entryText[:i]
+		}
+		r.lines[pauseLineIndex].Text = indentation + extendedPause.ToString() + entryText[len(value):]
 	}
 
 	return nil
